@@ -1318,8 +1318,11 @@ class NumpyStub:
         return NpScalar(r, dtype or DT_OF_KIND[kind_of(r)])
 
     def f_isnan(self, x):
-        if isinstance(x, TArr):      # arrays of symbolic extent carry no NaN (precondition of the contracts that use them)
+        if isinstance(x, TArr):      # arrays of symbolic extent carry no NaN unless they have a NaN mask (values.TArr)
             from . import tarr
+            if x.nan is not None:
+                m = x.nan
+                return tarr.from_fn(self, x.shape, bool, lambda *idx: z3.Select(m, *idx))
             return tarr.from_fn(self, x.shape, bool, lambda *idx: z3.BoolVal(False))
         def f(e):
             if isinstance(e, Sym):
